@@ -90,6 +90,9 @@ pub trait Stepper {
   /// event is read, by something other than the mapper (world E: timer chords). They only move the
   /// folded output state; no oracle is evaluated on them (C11 owns them).
   fn after_step(&mut self) -> Vec<Event> { vec![] }
+  /// what was written to the virtual keyboard in answer to a key event that arrived while the
+  /// keyboard is supposed to be silent (tablet mode); world A: nothing, the mapper never sees it
+  fn unseen(&mut self, _e: &Event) -> Vec<Event> { vec![] }
 }
 impl Stepper for Mapper {
   fn step(&mut self, e: &Event) -> crate::key_transforms::StepResult { Mapper::step(self, e.clone()) }
@@ -97,14 +100,19 @@ impl Stepper for Mapper {
 }
 /// Outputs recorded per delivered event by an end-to-end run. The repeat request is not visible
 /// end to end, so oracles that need it (C06 twin, C09) are not used with this stepper.
-pub struct Precomputed { pub steps: Vec<Vec<Event>>, pub chords: Vec<Vec<Event>>, pub i: usize }
+/// `steps[i]` / `chords[i]` belong to the i-th op that asks for an answer (delivered event; with
+/// `per_op` also every reset and every unseen event, in op order).
+pub struct Precomputed { pub steps: Vec<Vec<Event>>, pub chords: Vec<Vec<Event>>, pub i: usize, pub per_op: bool }
+impl Precomputed {
+  fn next(&mut self) -> Vec<Event> { let v = self.steps.get(self.i).cloned().unwrap_or_default(); self.i += 1; v }
+}
 impl Stepper for Precomputed {
   fn step(&mut self, _e: &Event) -> crate::key_transforms::StepResult {
-    let events = self.steps.get(self.i).cloned().unwrap_or_default();
-    self.i += 1;
+    let events = self.next();
     crate::key_transforms::StepResult { events, repeat: ResultingRepeat::Disabled }
   }
-  fn release_all(&mut self) -> Vec<Event> { vec![] }
+  fn release_all(&mut self) -> Vec<Event> { if self.per_op { self.next() } else { vec![] } }
+  fn unseen(&mut self, _e: &Event) -> Vec<Event> { if self.per_op { self.next() } else { vec![] } }
   fn after_step(&mut self) -> Vec<Event> { if self.i == 0 { vec![] } else { self.chords.get(self.i - 1).cloned().unwrap_or_default() } }
 }
 
@@ -143,6 +151,14 @@ pub fn execute_with(case: &CaseA, en: &En, obs: &mut Obs, mapper: &mut dyn Stepp
     let ev = match op {
       Op::Unseen(e) => {
         if in_block { match e { Pressed(k) => { if !phys.contains(k) { phys.push(*k); } } Released(k) => { phys.retain(|x| x != k); } } }
+        // end to end the silent keyboard may still have been answered; whatever was written moves
+        // the output state (what may be written in tablet mode is C12's business, not checked here)
+        let written = mapper.unseen(e);
+        if !written.is_empty() {
+          for x in &written { fold1(&mut out, x); }
+          for x in mapper.after_step() { fold1(&mut out, &x); }
+        }
+        if en.c01 && in_block && phys.is_empty() && !out.is_empty() { return vio("C01", si, format!("all physical keys released (the last one while the keyboard was silenced) but {} still down on the virtual keyboard", keys_str(&out))); }
         continue;
       }
       Op::Reset => {
